@@ -384,3 +384,23 @@ func init() {
 	Evaluators["pair"] = evalPair
 	Evaluators["det"] = evalDet
 }
+
+// seqPairs executes, for every ordered pair (a, b) of the family's pair alphabet, the family's
+// evaluator on a and then on b in the same process: the round-trip properties quantify over every
+// call, whatever was encoded before. A finding on b carries a as recorded history.
+func seqPairs(c *core.Ctx, fams ...string) {
+	al := pairAlphabets(c.Thorough())
+	for _, fam := range fams {
+		calls := al[fam]
+		for _, a := range calls {
+			for _, b := range calls {
+				if !c.Mine() {
+					continue
+				}
+				Exec(c, &core.Case{Fam: a.fam, S: a.s, P: a.p})
+				Exec(c, &core.Case{Fam: b.fam, S: b.s, P: b.p})
+			}
+		}
+		c.R.Bound("history_pairs_"+fam, fmt.Sprintf("all ordered pairs of %d inputs, second call judged after the first in the same process", len(calls)))
+	}
+}
